@@ -459,6 +459,26 @@ def check_elimination(facts, rep):
                         if sh:
                             found.add(sh)
         shapes[label] = found
+    # a^-1 really inverts both factors of a = coefficient * cobordism
+    invs = facts.find(r'^yui_kh::<yui::lc::Lc<kh::internal::v2::cob::Cob, R> as kh::internal::v2::cob::LcCobTrait>::inv::\{closure#0\}$')
+    inst = 'LcCob::inv|(r * f)^-1 = r^-1 * f^-1'
+    okinv = False
+    shape = None
+    for b in invs:
+        rep.saw(b)
+        for p in SymEx(b).run():
+            r = p.ret
+            if p.end == 'return' and r is not None and r[0] == 'tuple' and len(r[1]) == 2:
+                c0, c1 = r[1]
+                shape = (sk(c0), sk(c1))
+                okinv = (c0[0] == 'call' and c0[1].endswith('cob::Cob::inv') and sk(c0[2][0]).endswith('.0') and
+                         c1[0] == 'call' and c1[1].endswith('Ring::inv') and sk(c1[2][0]).endswith('.1'))
+    if okinv:
+        rep.ok('E8.F6-elimination-formula', inst, 'term (c, a) -> (c.inv(), a.inv())')
+    else:
+        rep.violation('E8.F6-elimination-formula', inst,
+                      'LcCob::inv maps a term (cobordism, coefficient) to %s; the inverse used as a^-1 in d - c a^-1 b must invert the cobordism AND the coefficient (Ring::inv)' % (shape,),
+                      where='yui-khovanov/src/kh/internal/v2/cob.rs')
     inst = 'eliminate|d - c*a^-1*b (complex) and -c*a^-1*b / d - c*a^-1*b (cycles)'
     want = {('sub', 'c', 'ainv', 'b'), ('neg', 'c', 'ainv', 'b')}
     if shapes.get('complex') == want and shapes.get('cycles') == want:
